@@ -162,7 +162,8 @@ def gen_qua_doc(r: random.Random, hi: int = 10) -> dict:
         d = {}
         put_t(d, t())
         if r.random() < 0.85:
-            d["Multiplier"] = r.choice([1.0, 0.5, 2.0, 1.01999998, 4.54000664, 0.325713784, -1.0, 10, 0.1, 0, 0.0])
+            # (values whose repr is exponent notation with a whole mantissa - 1e-05 - are strings to YAML 1.1 unless written 1.0e-05)
+            d["Multiplier"] = r.choice([1.0, 0.5, 2.0, 1.01999998, 4.54000664, 0.325713784, -1.0, 10, 0.1, 0, 0.0, 1e-05, 3e-07, 1e16, 2.5e-06])
         svs.append(d)
     shape = r.choice(["mixed", "mixed", "mixed", "hits_only", "holds_only", "empty"])
     n = 0 if shape == "empty" else max(1, size(r, hi))
@@ -194,6 +195,11 @@ SM_TYPES = [("dance-single", 4), ("dance-single", 4), ("dance-double", 8), ("dan
 SM_ROWS = [4, 4, 8, 8, 12, 16, 16, 24, 32, 48, 64, 96, 192, 20, 28, 36]
 SM_BPM_STR = ["120.000", "60.000", "90.000", "150.000", "173.500", "180.000", "200.000", "240.000", "87.250", "300.000", "30.000", "128", "99.999"]
 SM_DIFFS = ["Beginner", "Easy", "Medium", "Hard", "Challenge", "Edit"]
+
+
+def _mcap(hi: int, base: int) -> int:
+    """measure-count cap: `base` for ordinary sessions, more for scaled-up ones"""
+    return base if hi <= 24 else min(hi // 4, 60)
 
 
 def gen_sm_notes(r: random.Random, keys: int, n_measures: int, density=0.25, symbols=None, last_col=False) -> list[list[str]]:
@@ -232,7 +238,7 @@ def gen_sm_notes(r: random.Random, keys: int, n_measures: int, density=0.25, sym
 def gen_sm_doc(r: random.Random, hi: int = 4, pipeline: dict | None = None) -> dict:
     """pipeline (C09 sources): {keys: allowed key counts, offset0: bool} -> taps/holds only, tempo changes on measure lines"""
     n_charts = r.choice([1, 1, 2, 3, 4])
-    n_measures = r.randint(1, max(2, min(6, hi)))
+    n_measures = r.randint(1, max(2, min(_mcap(hi, 6), hi)))
     nb = r.choice([1, 1, 2, 3, 4, 6])
     beats = {0}
     if pipeline:
@@ -412,7 +418,7 @@ def gen_bms_doc(r: random.Random, hi: int = 6, layout: str | None = None, odd_te
         k = r.choice(sorted(pipeline["keys"]))
         rev = {v: c for c, v in LAYOUTS["BME"].items()}
         lanes = [rev[c] for c in range(k)]
-    n_meas = r.randint(1, max(2, min(8, hi)))
+    n_meas = r.randint(1, max(2, min(_mcap(hi, 8), hi)))
     wav_ids = [_id36(i) for i in r.sample(range(1, 200), r.choice([1, 2, 4, 6]))]
     lnobj = None
     if r.random() < 0.6:
@@ -520,7 +526,7 @@ def gen_bms_doc(r: random.Random, hi: int = 6, layout: str | None = None, odd_te
         lines.sort(key=lambda x: (x[1], x[0]))
     else:
         r.shuffle(lines)
-    if not pipeline and r.random() < 0.2:
+    if r.random() < 0.2:
         # object ids are two characters 0-9 A-Z a-z, matched as spelled: spell some (or all) letters in lower case,
         # the same way in the #WAVxx / #BPMxx / #LNOBJ headers and in the data lines
         every = r.random() < 0.5
@@ -604,7 +610,7 @@ def gen_ojn_level(r: random.Random, n_meas: int, hi: int, tempo_on_measures=Fals
 
 
 def gen_ojn_doc(r: random.Random, hi: int = 6, pipeline: dict | None = None) -> dict:
-    n_meas = r.randint(1, max(2, min(6, hi)))
+    n_meas = r.randint(1, max(2, min(_mcap(hi, 6), hi)))
     if pipeline:
         levels = []
         for _ in range(3):
